@@ -81,8 +81,10 @@ StatusJ(st) == [marked |-> st.marked, v4 |-> SetToSeq(st.v4), v6 |-> SetToSeq(st
 (* C13 for configuration data: the router's replies in every composition of information-preserving
    rewrites (Depth = 0: each single rewrite, none and all of them; Depth = 1: every subset) *)
 StyleFlags == {"pfx", "ws", "pad", "cmt", "attr", "decl", "empt"}
-StyleCases == IF Depth = 0 THEN {{}} \cup {{f} : f \in StyleFlags} \cup {StyleFlags} \cup {StyleFlags \ {f} : f \in {"pfx", "empt"}}
-              ELSE SUBSET StyleFlags
+StyleCases == (IF Depth = 0 THEN {{}} \cup {{f} : f \in StyleFlags} \cup {StyleFlags} \cup {StyleFlags \ {f} : f \in {"pfx", "empt"}}
+               ELSE SUBSET StyleFlags)
+              (* a comment in the middle of token-valued text (names, prefixes, ranges), on its own *)
+              \cup {{"cmtmid"}}
 
 (* C14 for the agent: every positive reply of the router damaged in every way of the mutation grammar *)
 Mutations == {"trunc-half", "trunc-tag", "trunc-attr", "dup-statement", "dup-name", "dup-root", "huge-int", "range-reversed",
